@@ -204,8 +204,11 @@ class _E:
         self.input_kind = kind
 
 
-def _split_opts(spec):
+def _split_opts(spec, d=None):
     plain = dict(spec['options'])
+    if d is not None and plain.get('import_paths'):
+        # '@dir/<sub>' = a grammar library directory inside the directory the nodes of this pipeline share
+        plain['import_paths'] = [os.path.join(d, x[5:]) if isinstance(x, str) and x.startswith('@dir/') else x for x in plain['import_paths']]
     user = {}
     u = spec.get('user') or {}
     if u.get('callbacks'):
@@ -218,21 +221,45 @@ def _split_opts(spec):
     return _E(spec.get('input_kind', 'str')), opts, plain, user
 
 
+def _cache_store(d, P):
+    """content of everything a cache= constructor of this pipeline may read or write"""
+    out = {}
+    td = os.path.join(d, 'tmp')
+    for fn in [P['cache']] + [os.path.join(td, x) for x in sorted(os.listdir(td))]:
+        if os.path.isfile(fn):
+            with open(fn, 'rb') as f:
+                out[fn] = f.read()
+    return out
+
+
 def node(job):
     """executes the steps of one node; returns {'t': {label: transcript}, 'notes': [...]}"""
     from lark import Lark
     d = job['dir']
     tr = {}
     notes = []
+    import tempfile
+    os.makedirs(os.path.join(d, 'tmp'), exist_ok=True)
+    tempfile.tempdir = os.path.join(d, 'tmp')          # where cache=True puts its files: inside the pipeline's directory, never the real /tmp
     specs = {c['name']: c for c in job['cases']}
     for st in job['steps']:
         cfg = st['cfg']
         spec = specs[cfg]
-        e, opts, plain, user = _split_opts(spec)
+        e, opts, plain, user = _split_opts(spec, d)
         e.grammar = spec['grammar']
         probes = spec['probes']
         P = _paths(d, cfg, st.get('gen', 1))
         do = st['do']
+        for rel, content in (spec.get('files') or {}).items():
+            # imported grammar files of this case (every node sees the same directory; whoever comes first writes them)
+            fp = os.path.join(d, rel)
+            if not os.path.exists(fp):
+                os.makedirs(os.path.dirname(fp), exist_ok=True)
+                with open(fp, 'w') as f:
+                    f.write(content)
+        # cache=True: lark derives the file name from its key, inside the temporary directory -- here a directory of the pipeline, so that
+        # cases with different keys share one cache store (and cases that wrongly get the same key meet each other's files)
+        cache_arg = True if spec.get('cache_by_key') else P['cache']
         try:
             if do == 'build':
                 p = Lark(e.grammar, **opts)
@@ -240,7 +267,7 @@ def node(job):
                     beh(p, e, probes, _lark_ns())       # the instance is USED before it is saved: lazily cached values are then serialised filled-in
                 with open(P['save'], 'wb') as f:
                     p.save(f)
-                Lark(e.grammar, cache=P['cache'], **opts)
+                Lark(e.grammar, cache=cache_arg, **opts)
                 if st.get('standalone', True):
                     from lark.tools.standalone import gen_standalone
                     q = Lark(e.grammar, **plain)                 # the generator cannot embed user objects; they are given at load time
@@ -289,10 +316,10 @@ def node(job):
                     with open(P2['save'], 'wb') as f:
                         p.save(f)
             elif do == 'cache':
-                before = open(P['cache'], 'rb').read()
-                p = Lark(e.grammar, cache=P['cache'], **opts)
+                before = _cache_store(d, P)
+                p = Lark(e.grammar, cache=cache_arg, **opts)
                 t = beh(p, e, probes, _lark_ns())
-                t.append({'cache_untouched': open(P['cache'], 'rb').read() == before})
+                t.append({'cache_untouched': _cache_store(d, P) == before})
                 tr[cfg + ':cache'] = t
             elif do in ('standalone', 'standalone_compressed', 'standalone_cli'):
                 path = P[{'standalone': 'sa', 'standalone_compressed': 'sac', 'standalone_cli': 'sacli'}[do]]
